@@ -69,6 +69,12 @@ class ConcreteOps:
     def ite(self, c, a, b): return a if c else b
     def truth(self, x): return bool(x)
     def lt(self, a, b): return self.num(a) < self.num(b)
+    def dec(self, x):
+        import decimal
+        return decimal.Decimal(repr(float(x)))
+    def arr(self, items):
+        import numpy
+        return numpy.array([float(x) for x in items])
 '''
 _ns = {}
 exec(CONCRETE_OPS_SRC, _ns)
@@ -195,6 +201,12 @@ class SymOps:
 
     def ite(self, c, a, b):
         return SymReal(z3.If(self._b(c), self._l(a), self._l(b)))
+
+    def dec(self, x):
+        return core.SymDec(self._l(x))
+
+    def arr(self, items):
+        return core.symarr(list(items))
 
 
 # ---------------------------------------------------------------------------
